@@ -7,6 +7,8 @@ import (
 	"strings"
 
 	"github.com/valyala/bytebufferpool"
+
+	"github.com/hujm2023/go-sms-protocol/verifhook"
 )
 
 type Writer struct {
@@ -16,6 +18,7 @@ type Writer struct {
 }
 
 func NewPacketWriter(totalLen ...int) *Writer {
+	verifhook.Yield("writer.new")
 	return &Writer{buf: bytebufferpool.Get()}
 }
 
@@ -179,6 +182,8 @@ func (p2 *Writer) Error() error {
 }
 
 func (p2 *Writer) Release() {
+	verifhook.Yield("writer.release")
+	verifhook.Released(p2.buf.B[:cap(p2.buf.B)])
 	bytebufferpool.Put(p2.buf)
 	p2.written = 0
 	p2.opError = nil
